@@ -109,11 +109,23 @@ def readByLine (cfg : Config) (m : MatcherI) (σ : Script) (lbcfg : LineBuffer.C
       let (st, r) := finish σ s.core byteCount s.lb.binOff
       ⟨st, r⟩
 
-/-- `fill_multi_line_buffer_from_reader`: read everything (interrupted reads are retried there
-too), then the multi-line searcher runs on the slice. Heap limits are not modelled here. -/
+/-- `fill_multi_line_buffer_from_reader` under a heap limit: the buffer starts at
+`min(DEFAULT_BUFFER_CAPACITY, limit)`, doubles up to `limit`, and the read loop fails with the
+allocation error as soon as it is full at `limit` -- i.e. (for a reader that returns 0 bytes only at
+EOF) iff the input has at least `limit` bytes, or `limit = 0`.  No callback is made before that. -/
+def multiLineHeapFails (heapLimit : Option Nat) (len : Nat) : Bool :=
+  match heapLimit with
+  | none => false
+  | some limit => limit == 0 || decide (limit ≤ len)
+
+/-- `search_reader`: with a real multi-line search `fill_multi_line_buffer_from_reader` reads
+everything (interrupted reads are retried there too; the heap limit as above), then the multi-line
+searcher runs on the slice; else the roll buffer. -/
 def searchReader (cfg : Config) (m : MatcherI) (σ : Script) (heapLimit verifCap : Option Nat)
     (rdr : Reader) : Run :=
-  if multiLineWithMatcher cfg m then multiLine cfg m σ rdr.data
+  if multiLineWithMatcher cfg m then
+    if multiLineHeapFails heapLimit rdr.data.length then ⟨Core.new cfg true, .err⟩
+    else multiLine cfg m σ rdr.data
   else readByLine cfg m σ (lineBufferConfig cfg heapLimit verifCap) rdr.withBomPeek
 
 end RgVerif.Searcher
